@@ -543,11 +543,11 @@ pub fn check() -> Check {
         ],
         required: &["calls_under_catch_unwind", "config_constructor_calls"],
         workloads: vec![
-            Workload { name: "fuzz_full", f: fuzz_full, quick: 6_000, thorough: 600_000, flav: Flav::Both },
-            Workload { name: "fuzz_plain", f: fuzz_plain, quick: 6_000, thorough: 600_000, flav: Flav::Both },
-            Workload { name: "fuzz_big", f: fuzz_big, quick: 600, thorough: 30_000, flav: Flav::Both },
-            Workload { name: "chaos", f: chaos_c06, quick: 4_000, thorough: 400_000, flav: Flav::Both },
-            Workload { name: "wrap", f: wrap, quick: 1_600, thorough: 80_000, flav: Flav::Both },
+            Workload { name: "fuzz_full", f: fuzz_full, quick: 20_000, thorough: 600_000, flav: Flav::Both },
+            Workload { name: "fuzz_plain", f: fuzz_plain, quick: 20_000, thorough: 600_000, flav: Flav::Both },
+            Workload { name: "fuzz_big", f: fuzz_big, quick: 1_200, thorough: 30_000, flav: Flav::Both },
+            Workload { name: "chaos", f: chaos_c06, quick: 12_000, thorough: 400_000, flav: Flav::Both },
+            Workload { name: "wrap", f: wrap, quick: 3_200, thorough: 80_000, flav: Flav::Both },
             Workload { name: "feed_wide", f: feed_overflow, quick: 2, thorough: 6, flav: Flav::Both },
             Workload { name: "config_ctor", f: config_ctor, quick: 20, thorough: 65_536, flav: Flav::Both },
         ],
